@@ -252,6 +252,15 @@ def main(run):
             if got != exp:
                 report("wrong-mesh", "q-points of the generic-shift mesh are not {(g + s/2 + shift)/mesh}: %d of %d points differ"
                        % (sum(1 for k in exp if got.get(k) != exp[k]), N))
+        # (iv) relocated q-points (fit_in_BZ: spglib relocate_BZ_grid_address; generic shift: _fit_qpoints_in_BZ) are shortest translates
+        if fit or generic:
+            tolb = float((reclat ** 2).sum(axis=0).min()) * 0.011
+            G5 = np.array(list(itertools.product(range(-2, 3), repeat=3)), dtype=float)
+            for p0 in qir:
+                best = float((((p0[None, :] + G5) @ reclat.T) ** 2).sum(axis=1).min())
+                if float(((reclat @ p0) ** 2).sum()) > best * (1 + 1e-9) + tolb:
+                    report("not-in-first-BZ", "q-point %s is not a shortest lattice translate (fit_in_BZ=%s)" % (p0.tolist(), fit))
+                    break
         run.count("oracle-grid", section="oracle")
 
     # ------------------------------------------------------------ length2mesh + extract_ir + shift2boolean
@@ -271,6 +280,18 @@ def main(run):
         lines.append("l2m %s %s" % (" ".join(q(float(v)) for v in prod), "1 " + U.mats_line(rots) if with_rots else "0"))
         meta.append(("l2m", dict(group=key, length=length, with_rots=with_rots), [int(v) for v in got], None))
         run.count("length2mesh", section="correspondence")
+        # hypothesis of length2mesh_mono / _symmetric, on the implementation's own flags: transitive
+        le = _lattice_equiv(rots)
+        if (le[0] and le[1] and not le[2]) or (le[1] and le[2] and not le[0]) or (le[0] and le[2] and not le[1]):
+            run.broke("hypothesis", "lattice-vector equivalence flags of a point group are not transitive", dict(group=key))
+        run.count("hypothesis-flags-transitive", section="oracle")
+        # oracle: >= 1, monotone in the length
+        length2 = length + rng.choice([0.0, rng.uniform(0, 10)])
+        got2 = length2mesh(length2, plat, rotations=rots if with_rots else None)
+        if min(got) < 1 or any(a > b for a, b in zip(got, got2)):
+            run.violation("length2mesh", "not-monotone", "length %.6g -> %s, length %.6g -> %s" % (length, list(got), length2, list(got2)),
+                          dict(cell=key[0], pmat=key[1], length=length, length2=length2, with_rotations=with_rots))
+        run.count("oracle-length2mesh", section="oracle")
         # oracle: symmetric mesh numbers where the lattice vectors are equivalent
         if with_rots:
             gpx = GridPoints(got, rec_lat, rotations=rots)
@@ -287,6 +308,42 @@ def main(run):
         meta.append(("extract", dict(table=t), ([int(v) for v in ir], [int(v) for v in w]), None))
         run.count("extract_ir", section="correspondence")
 
+    # ------------------------------------------------------------ relocation into the Brillouin zone
+    from phonopy.structure.brillouin_zone import get_qpoints_in_Brillouin_zone
+
+    bzdata = {}
+    for key in keys:
+        reclat = np.linalg.inv(groups[key][1])
+        T, okT = U.bz_setup(reclat)
+        bzdata[key] = (reclat, T)
+        run.count("bz-unimodular-certificates", section="correspondence")
+        if not okT:
+            run.broke("correspondence", "BrillouinZone: inv(reciprocal lattice)·reduced basis is not a unimodular integer matrix", dict(group=key))
+    for key in (keys if thorough else rng.sample(keys, 12)):
+        reclat, T = bzdata[key]
+        nq = 60 if thorough else 16
+        qs = [[rng.randint(-36, 36) / 24.0 for _ in range(3)] for _ in range(nq)]
+        qs += [[0.5, 0, 0], [0.5, 0.5, 0], [0.5, 0.5, 0.5], [1 / 3, 1 / 3, 0], [0.25, 0.75, 0.5], [rng.random() * 3 - 1.5 for _ in range(3)]]
+        m = rng.randint(2, 5)
+        qs += [[(rng.randint(0, m - 1) + rng.choice([0, 0.5])) / m for _ in range(3)] for _ in range(6)]
+        qs = np.array(qs, dtype=float)
+        pts = get_qpoints_in_Brillouin_zone(reclat, qs)
+        lines.append(U.bz_line(reclat, T, qs))
+        meta.append(("bz", dict(group=key), (reclat, qs, pts), None))
+        run.case(("bz", key, qs.tobytes()), nontrivial=True)
+        # oracle on the implementation: lattice translate, and not longer than any of the 125 neighbours + tolerance
+        tol = float((reclat ** 2).sum(axis=0).min()) * 0.01
+        G = np.array(list(itertools.product(range(-2, 3), repeat=3)), dtype=float)
+        for q0, pset in zip(qs, pts):
+            p0 = np.asarray(pset[0])
+            dq = p0 - q0
+            best = float((((q0[None, :] + G) @ reclat.T) ** 2).sum(axis=1).min())
+            if np.abs(dq - np.rint(dq)).max() > 1e-9 or float(((reclat @ p0) ** 2).sum()) > best + tol * (1 + 1e-9) + 1e-12:
+                run.violation("get_qpoints_in_Brillouin_zone", "not-shortest-translate",
+                              "relocated q-point %s of %s is not a shortest lattice translate" % (p0.tolist(), q0.tolist()),
+                              dict(cell=key[0], pmat=key[1], qpoint=q0.tolist()))
+            run.count("oracle-bz", section="oracle")
+
     # ------------------------------------------------------------ end-to-end through the Phonopy API
     _end_to_end(run, rng, thorough, lines, meta)
 
@@ -297,6 +354,8 @@ def main(run):
         return
     ncmp = 0
     pinned_generic = fixed_generic = 0
+    second = []  # generic-shift GridPoints cases: relocation of the model's q-points, compared exactly in a second pass
+    bz_exact = bz_tie = 0
     k = 0
     while k < len(lines):
         kind, info, impl, extra = meta[k]
@@ -326,7 +385,25 @@ def main(run):
                     fixed_generic += 1
             if not (ok[0][0] or ok[1][0]):
                 run.broke("correspondence", "GridPoints differs from the model (%s)" % ok[0][1], dict(info=info, model=out[k][:400]))
+            elif generic:
+                second.append((info, gp, res[0] if ok[0][0] else res[1]))
             k += 2
+        elif kind == "bz":
+            ncmp += 1
+            reclat, qs, pts = impl
+            ms = U.bz_parse(line)
+            if len(ms) != len(qs):
+                run.broke("correspondence", "bz model answered %d points for %d" % (len(ms), len(qs)), info)
+            else:
+                for q0, pset, m in zip(qs, pts, ms):
+                    verdict = U.bz_compare(reclat, q0, pset, m)
+                    if verdict == "":
+                        bz_exact += 1
+                    elif verdict == "tie":
+                        bz_tie += 1
+                    else:
+                        run.broke("correspondence", "get_qpoints_in_Brillouin_zone: " + verdict, dict(info, qpoint=q0.tolist()))
+            k += 1
         elif kind == "l2m":
             ncmp += 1
             if [int(t) for t in line.split()] != impl:
@@ -350,6 +427,30 @@ def main(run):
             k += 1
         else:
             k += 1
+    # second pass: GridPoints on the generic-shift path relocates its q-points (_fit_qpoints_in_BZ): exact comparison
+    if second:
+        lines2 = []
+        for info, gp, m in second:
+            reclat, T = bzdata[(info["cell"], info["pmat"])]
+            lines2.append(U.bz_line(reclat, T, [[float(v) for v in p] for p in m["qpoints"]]))
+        out2 = common.lean_run_driver("C09", lines2)
+        for (info, gp, m), line in zip(second, out2):
+            reclat, T = bzdata[(info["cell"], info["pmat"])]
+            ms = U.bz_parse(line)
+            for q0, p, mm in zip(m["qpoints"], np.array(gp.qpoints), ms):
+                verdict = U.bz_compare(reclat, [float(v) for v in q0], [p], dict(mm, nshort=1) if mm else None)
+                if verdict == "":
+                    bz_exact += 1
+                elif verdict == "tie":
+                    bz_tie += 1
+                else:
+                    run.broke("correspondence", "GridPoints._fit_qpoints_in_BZ: " + verdict, info)
+            ncmp += 1
+        run.cov["correspondence"]["generic-shift GridPoints cases with exactly compared relocated q-points"] = len(second)
+    run.cov["correspondence"]["relocated q-points equal to the model's"] = bz_exact
+    run.cov["correspondence"]["relocated q-points differing by an exact tie (np.rint of a half integer / tolerance threshold)"] = bz_tie
+    if bz_tie > 0.1 * max(1, bz_exact):
+        run.broke("correspondence", "too many relocated q-points differ from the model by 'ties' (%d of %d)" % (bz_tie, bz_exact + bz_tie))
     run.cov["correspondence"]["compared"] = ncmp
     run.cov["correspondence"]["generic-shift cases matching the pinned-code model"] = pinned_generic
     run.cov["correspondence"]["generic-shift cases matching the repaired-code model"] = fixed_generic
